@@ -88,8 +88,8 @@ def bip32Op : List String → Option String
     pure (match deriveFromAccountRange (envOf hmacSha512) (← xkeyOf [v, d, fp, i, cc, k]) (← branch.toNat?)
       (← pathOf addrs) (← boolOf only01) (← mx.toNat?) with
       | .ok xs => "ok " ++ " | ".intercalate (xs.map renderX) | .error e => "err " ++ e.name)
-  | ["bip32.tweaks", key, cc, path] => do
-    pure (match pubTweaks (envOf hmacSha512) (← fromHex? key) (← fromHex? cc) (← pathOf path) with
+  | ["bip32.tweaks", mac, key, cc, path] => do
+    pure (match pubTweaks (envOf (← macOf mac)) (← fromHex? key) (← fromHex? cc) (← pathOf path) with
           | .ok ts => "ok " ++ (if ts.isEmpty then "_" else ",".intercalate (ts.map toHex)) | .error e => "err " ++ e.name)
   | "bip85.entropy" :: v :: d :: fp :: i :: cc :: k :: [path] => do
     pure (rB (bip85Entropy (envOf hmacSha512) (← xkeyOf [v, d, fp, i, cc, k]) (← pathOf path)))
